@@ -451,7 +451,13 @@ ssize_t write(int fd, const void *buf, size_t n)
   if (!fd_is_reg(fd)) {
     /* pipes, sockets, ttys: traced lightly, never counted as mutating */
     f = maybe_fault("pwrite");
-    if (f == 1) { tr("pwrite\t%d\t%zu\t-1\t%d\tFAULT", fd, n, errno); return -1; }
+    if (f == 1) {
+      tr("pwrite\t%d\t%zu\t-1\t%d\tFAULT", fd, n, errno);
+      /* a write to a pipe, FIFO or socket whose reader is gone fails with EPIPE AND raises SIGPIPE: programs that ignore the signal see
+         the error, programs that left the default action die - the injected failure does what the kernel does */
+      if (errno == EPIPE) { raise(SIGPIPE); errno = EPIPE; }
+      return -1;
+    }
     if (gatepath && fd_is_fifo(fd) && gated_fd(fd)) { fdpath(fd, p, sizeof p); gate("REQ", "write", p); }
     r = real_write(fd, buf, n);
     if (tracefd >= 0) tr("pwrite\t%d\t%zu\t%zd\t%d", fd, n, r, r < 0 ? errno : 0);
